@@ -226,19 +226,24 @@ class Path:
                 return k, not p
             if n == "isnot":
                 return op("is", t[2], t[3]), False
-            if n == "ne":
+            if n == "ne" and not (("c", 0) in t[2:] and self._nonneg(t[3] if t[2] == ("c", 0) else t[2])):
                 return op("eq", t[2], t[3]), False
             if n == "notin":
                 return ("op", "in", t[2], t[3]), False
-            if n == "gt" and t[3] == ("c", 0) and _nonneg(t[2]):
+            if n == "gt" and t[3] == ("c", 0) and self._nonneg(t[2]):
                 return ("truth", t[2]), True
-            if n == "ge" and t[2] == ("c", 0) and _nonneg(t[3]):        # 0 >= x  <=> not x
+            if n == "ge" and t[2] == ("c", 0) and self._nonneg(t[3]):        # 0 >= x  <=> not x
                 return ("truth", t[3]), False
+            if n == "ne" and ("c", 0) in t[2:] and self._nonneg(t[3] if t[2] == ("c", 0) else t[2]):
+                return ("truth", t[3] if t[2] == ("c", 0) else t[2]), True
             if n in ("eq", "is", "in", "gt", "ge"):
                 return t, True
         if t[0] == "call" and t[1] == "bool" and len(t[2]) == 1:
             return self._key(t[2][0])
         return ("truth", t), True
+
+    def _nonneg(self, t):
+        return _nonneg(t) or (t[0] == "s" and self.I.kinds.get(t[1]) == "count")
 
     def _fold(self, key):
         """decide a canonical key without assumptions, or None"""
@@ -625,6 +630,14 @@ class Path:
 
     def _builtin(self, name, args, kws, n):
         kw = dict(kws)
+        if (name in UFUNC2 and len(args) == 2 or name in UFUNC1 and len(args) == 1) and len(kws) == 1 and kws[0][0] == "out" and kws[0][1] != NONE:
+            val = self._binop(UFUNC2[name], args[0], args[1]) if len(args) == 2 else op(UFUNC1[name], args[0])
+            out = kws[0][1]
+            if out[0] in ("idx", "ld"):
+                self._store(out[1], out[2], val, n, aug=True)
+            else:
+                self._store(out, ("slice", NONE, NONE, NONE), val, n, aug=True)
+            return out
         if name in UFUNC2 and len(args) == 2 and not kws:
             return self._binop(UFUNC2[name], args[0], args[1])
         if name in UFUNC1 and len(args) == 1 and not kws:
@@ -986,7 +999,7 @@ def mem(P, t, kinds=None):
     if k in ("c", "op", "g", "fn", "slice"):
         return set(), True
     if k == "s":
-        return ({t} if kinds.get(t[1]) not in ("scalar", "str") else set()), True
+        return ({t} if kinds.get(t[1]) not in ("scalar", "str", "count") else set()), True
     if k == "ref":
         return {t}, True
     if k == "post":
